@@ -272,9 +272,7 @@ class C11(Check):
 
     # ------------------------------------------------------------ helpers
     def classes(self, toks):
-        cl = sorted(set(spec.classify_token(t) for t in (toks or []))
-                    - set(['text']))
-        return '+'.join(cl) or '-'
+        return spec.leading_class(toks)
 
     def gen_sig(self, g):
         where = '?'
